@@ -117,6 +117,28 @@ ISAR = [
     ('isar-self-constant', '<x><constant name="A" value="A + 1"/></x>'),
     ('isar-cycle-3', '<x><struct name="A"><member name="b" type="B"/></struct><struct name="B"><member name="c" type="C"/>'
                      '</struct><union name="C"><member name="a" type="A" discriminatorValue="1"/></union></x>'),
+    ('isar-user-before-cycle', '<x><struct name="S"><member name="a" type="A"/></struct><struct name="A"><member name="b" '
+                               'type="B"/></struct><struct name="B"><member name="a" type="A"/></struct></x>'),
+    ('isar-user-before-self-cycle', '<x><struct name="S"><member name="a" type="A"/></struct><struct name="A">'
+                                    '<member name="a" type="A"/></struct></x>'),
+    ('isar-typedef-of-recursive', '<x><typedef name="T" type="A"/><struct name="A"><member name="a" type="A"/></struct></x>'),
+    ('isar-typedef-of-cycle', '<x><typedef name="T" type="A"/><struct name="A"><member name="b" type="B"/></struct>'
+                              '<struct name="B"><member name="a" type="A"/></struct><struct name="Z"><member name="t" type="T"/>'
+                              '</struct></x>'),
+    ('isar-two-users-before-3-cycle', '<x><struct name="S1"><member name="a" type="S2"/></struct><struct name="S2"><member name="a" '
+                                      'type="A"/></struct><struct name="A"><member name="b" type="B"/></struct><struct name="B">'
+                                      '<member name="c" type="C"/></struct><struct name="C"><member name="a" type="A"/></struct></x>'),
+    ('isar-union-user-before-cycle', '<x><union name="U"><member name="a" type="A" discriminatorValue="1"/></union><struct name="A">'
+                                     '<member name="u" type="U"/></struct><struct name="Q"><member name="u" type="U"/></struct></x>'),
+    ('isar-unevaluable-constant-in-arithmetic', '<x><constant name="X" value="MISSING"/><constant name="Y" value="X*2"/>'
+                                                '<struct name="S"><member name="a" type="u8"><dimension size="Y"/></member></struct></x>'),
+    ('isar-unevaluable-constant-in-size2', '<x><constant name="X" value="MISSING + 1"/><struct name="S"><member name="a" type="u8">'
+                                           '<dimension size="X" size2="2"/></member></struct></x>'),
+    ('isar-unevaluable-constant-negated', '<x><constant name="X" value="GONE"/><enum name="E"><enum-member name="E_A" value="X+1"/>'
+                                          '</enum><constant name="Z" value="-X"/><struct name="S"><member name="a" type="u8">'
+                                          '<dimension size="Z"/></member></struct></x>'),
+    ('isar-constant-shift-of-unevaluable', '<x><constant name="X" value="NOPE"/><constant name="Y" value="shiftLeft(X, 2)"/>'
+                                           '<struct name="S"><member name="a" type="u8"><dimension size="Y"/></member></struct></x>'),
     ('isar-malformed', '<x><struct name="A"><member name="a" type="u8"></struct></x>'),
     ('isar-not-xml', 'struct S { u8 a; };'),
     ('isar-empty', ''),
